@@ -7,10 +7,12 @@
    The rebuild through the API (add_asset with the stored id, add_association on the assets found by id,
    add_attacker) is ModelLoad.load, a sequence of steps of the state machine of C05; content_of is what _to_dict reads
    from a model state. C07_rebuild / C07_save_load: every loadable content is rebuilt into a coherent model with
-   exactly that content. PARTIAL: that the content of every model reachable through the API is loadable (distinct ids
-   and names, non-empty duplicate-free association ends on live assets, no repeated link, named attackers) is checked
-   on every model of the correspondence run, not proved for all histories; the YAML / JSON text layer is trusted. *)
-From MT Require Import Prelude Codec ModelIO Model ModelOps ModelInv ModelLoad ModelLoadThm.
+   exactly that content. C07_typed_history: the content of the model built by ANY history of calls of the typed API
+   (the state machine of C06: generated classes with their validation, every Model operation, defense assignments)
+   is loadable, so saving that model and loading the document gives a coherent model with the same content.
+   PARTIAL only in that the YAML / JSON text layer (value tree <-> text) is trusted, metadata other than the name is
+   constant, and floats are the dyadic values k/1024. *)
+From MT Require Import Prelude Lang LangGraph Codec ModelIO Model ModelOps ModelInv ModelLoad ModelLoadThm Classes ClassesThm ModelSaveThm.
 
 Theorem C07_key_roundtrip : forall z, Z_of_string (string_of_Z z) = Some z.
 Proof. exact Z_of_string_of_Z. Qed.
@@ -56,6 +58,20 @@ Theorem C07_state_save_load : forall defaults n s,
 Proof. exact state_save_load. Qed.
 Print Assumptions C07_state_save_load.
 
+(* every history of typed API calls: save the model it builds, load the document, get a coherent model with the same content *)
+Theorem C07_typed_history : forall L created ops n, no_extras_class created ->
+  let s := tsteps L created minit ops in
+  exists c' s', decode (encode (content_of (class_defenses L) n s)) = Some c' /\ load (class_defenses L) c' = (s', MOk) /\
+                MI s' /\ content_of (class_defenses L) n s' = content_of (class_defenses L) n s.
+Proof. exact typed_save_load. Qed.
+Print Assumptions C07_typed_history.
+
+(* its core: the content of such a model is always accepted by the loader *)
+Theorem C07_reachable_loadable : forall L created ops n,
+  loadable (class_defenses L) (content_of (class_defenses L) n (tsteps L created minit ops)) = true.
+Proof. exact reachable_loadable. Qed.
+Print Assumptions C07_reachable_loadable.
+
 Definition exC : content := mkC "m"
   [ mkCA 4%Z "x" "Aa" [("df", 512%Z)] []; mkCA 0%Z "y:0" "Bb" [] [("k", JInt 1%Z)]; mkCA (-2)%Z "z" "Aa" [] [] ]
   [ mkCC "Pp" "pa" [4%Z; 0%Z] "pb" [(-2)%Z] [("note", JStr "n")]; mkCC "zz" "qa" [0%Z] "qb" [4%Z] [] ]
@@ -68,3 +84,25 @@ Definition exTbl := defaults_of [("Aa", [("df", 0%Z); ("dg", 1024%Z)]); ("Bb", [
 Example C07_rebuild_nonvacuous : loadable exTbl exC = true /\ snd (load exTbl exC) = MOk /\
   content_eqb (content_of exTbl "m" (fst (load exTbl exC))) exC = true.
 Proof. vm_compute. auto. Qed.
+
+Definition exL : lang := mkLang
+  [ mkAsset "Aa" None false [] [mkStep "t" "or" JNull [] (JDict []) None None;
+                                mkStep "df" "defense" (JDict [("type", JStr "function"); ("name", JStr "Enabled")]) [] (JDict []) None None];
+    mkAsset "Bb" (Some "Aa") false [] [mkStep "dg" "defense" JNull [] (JDict []) None None] ]
+  [ mkAssoc "Pp" "Aa" "pa" 0 (Some 1%Z) "Bb" "pb" 0 None; mkAssoc "Qq" "Aa" "qa" 0 None "Aa" "qb" 0 None ].
+Definition exOps : list top :=
+  [ TBase (MNewAsset "Aa" (Some "a") [] (JDict [])); TBase (MAddAsset 0 (Some 7%Z) true);
+    TBase (MNewAsset "Bb" (Some "b") [("df", 512%Z)] (JDict [("k", JBool true)])); TBase (MAddAsset 1 None true);
+    TBase (MNewAsset "Bb" (Some "a") [] (JDict [])); TBase (MAddAsset 2 (Some 0%Z) true);          (* renamed a:0 *)
+    TSetDef 2 "dg" 1024%Z;
+    TBase (MNewAssoc "Pp" "pa" [0] "pb" [1; 2]); TBase (MAddAssoc 0);
+    TBase (MNewAssoc "Qq" "qa" [0; 1] "qb" [2]); TBase (MAddAssoc 1);
+    TBase (MRemoveFromAssoc 2 0);
+    TBase (MNewAtt (Some "")); TBase (MAddEntry 0 1 "t"); TBase (MAddAtt 0 None) ].
+Example C07_typed_nonvacuous :
+  lg_assocs exL = LOk (l_assocs exL) /\ no_extras_class (l_assocs exL) /\
+  let s := tsteps exL (l_assocs exL) minit exOps in
+  m_assets s = [0; 1; 2] /\ m_assocs s = [0; 1] /\ m_attackers s = [0] /\
+  content_eqb (content_of (class_defenses exL) "m" (fst (load (class_defenses exL) (content_of (class_defenses exL) "m" s))))
+              (content_of (class_defenses exL) "m" s) = true.
+Proof. vm_compute. repeat split. Qed.
